@@ -86,11 +86,18 @@ def build(rng, d, mask, n_cuts, K, temp, fit=True, cut_kind=None, score_scale=No
     """A Douglas object after a real 1-epoch fit (or a direct _init_params), whose parameters are then
     overwritten with generated cut points (unsorted / duplicated / on the data grid) and leaf scores."""
     seed = int(rng.integers(0, 2 ** 31 - 1))
-    est = Douglas(n_clusters=K, gemini="mmd_ova", n_cuts=n_cuts, feature_mask=mask, temperature=temp,
+    # history: half of the fitted objects are trained and used at ANOTHER temperature (orders of magnitude away) and only
+    # then switched to `temp` with set_params — predictions must depend on the current parameters only
+    reuse = fit and rng.random() < 0.5
+    temp0 = float(rng.choice([1.0, 1e-4, 10.0, 1e-2])) if reuse else temp
+    est = Douglas(n_clusters=K, gemini="mmd_ova", n_cuts=n_cuts, feature_mask=mask, temperature=temp0,
                   max_iter=1, random_state=seed)
     Xtr = rng.normal(size=(max(K, 4) + int(rng.integers(0, 4)), d))
     if fit:
         est.fit(Xtr)
+        if reuse:
+            est.predict_proba(Xtr)
+            est.set_params(temperature=temp)
     else:
         est._init_params(np.random.RandomState(seed), Xtr)
     fitted = [(int(f), np.array(c, dtype=float)) for f, c in est.cut_points_list_]
@@ -520,9 +527,128 @@ def stream_nomask(chk, i, rng):
     chk.count(None)
 
 
+def fresh_copy(est, K, n_cuts, mask, temp, cpl, S):
+    """A newly constructed object given identical hyper-parameters and parameters (no history)."""
+    f = Douglas(n_clusters=K, gemini="mmd_ova", n_cuts=n_cuts, feature_mask=None if mask is None else np.array(mask, copy=True),
+                temperature=temp, max_iter=1)
+    f.cut_points_list_ = [(int(j), np.array(c, dtype=float, copy=True)) for j, c in cpl]
+    f.leaf_scores_ = np.array(S, dtype=float, copy=True)
+    return f
+
+
+TEMPS = [1.0, 1e-4, 10.0, 1e-3, 0.1, 3e-2, 1e-2, 5.0]
+
+
+def stream_reuse(chk, i, rng):
+    """History independence: a sequence of set temperature / set cut_points_list_ (also with another number of cuts) /
+    set leaf_scores_ / set feature_mask / refit / predict operations on ONE Douglas object; after every step predict_proba
+    must equal (a) the extracted model on the current parameters, (b) a freshly constructed object holding identical
+    parameters, (c) at small temperature softmax(leaf_scores_[cell]) for the rows away from the cut points."""
+    d = int(rng.integers(1, 5))
+    mask, used = gen_mask(rng, d)
+    n_cuts = int(rng.integers(1, 4))
+    while (n_cuts + 1) ** len(used) > 81 and n_cuts > 1:
+        n_cuts -= 1
+    K = int(rng.integers(2, 5))
+    temp = float(TEMPS[int(rng.integers(0, len(TEMPS)))])
+    seed = int(rng.integers(0, 2 ** 31 - 1))
+    est = Douglas(n_clusters=K, gemini="mmd_ova", n_cuts=n_cuts, feature_mask=mask, temperature=temp, max_iter=1, random_state=seed)
+    Xtr = rng.normal(size=(K + 3, d))
+    est.fit(Xtr)
+    n = 4
+    ops_done = ["fit"]
+    nops = int(rng.integers(4, 8))
+    for step in range(nops + 1):
+        if step > 0:
+            op = ["temp", "temp", "cuts", "ncuts", "scores", "mask", "refit", "binning", "predict"][int(rng.integers(0, 9))]
+            if step == 1:
+                op = "temp"            # the very first change after the fit is always the temperature
+            if op == "temp":
+                cands = [t for t in TEMPS if abs(math.log10(t / temp)) >= 1]
+                temp = float(cands[int(rng.integers(0, len(cands)))])
+                est.set_params(temperature=temp)
+            elif op == "cuts":
+                est.cut_points_list_ = [(j, gen_cuts(rng, len(c))[0]) for j, c in cpl_of(est)]
+            elif op in ("ncuts", "mask"):
+                if op == "mask":
+                    mask, used = gen_mask(rng, d)
+                    est.set_params(feature_mask=mask)
+                m2 = int(rng.integers(1, 4))
+                while (m2 + 1) ** len(used) > 81 and m2 > 1:
+                    m2 -= 1
+                if op == "ncuts" and m2 == n_cuts:
+                    m2 = n_cuts % 3 + 1 if (n_cuts % 3 + 2) ** len(used) <= 81 else 1
+                n_cuts = m2
+                est.set_params(n_cuts=n_cuts)
+                est.cut_points_list_ = [(j, np.round(rng.uniform(-2, 2, size=n_cuts), 2)) for j in used]
+                est.leaf_scores_ = rng.normal(size=((n_cuts + 1) ** len(used), K)) * 2
+            elif op == "scores":
+                est.leaf_scores_ = rng.normal(size=est.leaf_scores_.shape) * float(10.0 ** rng.uniform(-1, 0.7))
+            elif op == "refit":
+                est.fit(Xtr)
+                n_cuts = est.n_cuts
+            elif op == "binning":      # a direct call with another number of cut points in between
+                est._leaf_binning(rng.normal(size=(3, 1)), rng.normal(size=int(rng.integers(1, 6))))
+            ops_done.append(f"{op}:{temp:g}" if op == "temp" else op)
+        cpl = cpl_of(est)
+        S = np.asarray(est.leaf_scores_, dtype=float)
+        X = rng.normal(size=(n, d)) * 1.5
+        if rng.random() < 0.5:          # rows well inside grid cells (useful at small temperature)
+            for j, c in cpl:
+                X[:, j] = np.round(X[:, j], 1) + 0.05
+        replay = {"ops": list(ops_done), "d": d, "mask": None if mask is None else [int(v) for v in mask], "n_cuts": n_cuts, "K": K,
+                  "temperature": temp, "cut_points_list": [[j, c.tolist()] for j, c in cpl], "leaf_scores": S.tolist(), "X": X.tolist()}
+        if [j for j, _ in cpl] != used or S.shape != ((n_cuts + 1) ** len(used), K):
+            chk.fail("reuse:structure", f"after {ops_done}: features {[j for j, _ in cpl]} / leaf_scores_ shape {S.shape} do not match mask {used} and n_cuts {n_cuts}", replay, layer="L3")
+            break
+        P = np.asarray(est.predict_proba(X.copy()))
+        mod = model_infer(chk, temp, K, cpl, S, X)
+        sscale = float(np.abs(S).max())
+        bad = False
+        for r in range(n):
+            if mod[r] is None or not close(P[r], mod[r][1], sscale):
+                chk.fail("reuse:model-mismatch", f"after {ops_done}: row {r} prediction {P[r].tolist()} differs from the model on the CURRENT parameters "
+                         f"{None if mod[r] is None else mod[r][1]}", dict(replay, row=r))
+                bad = True
+                break
+        Pf = np.asarray(fresh_copy(est, K, n_cuts, mask, temp, cpl, S).predict_proba(X.copy()))
+        if Pf.shape != P.shape or np.abs(Pf - P).max() > TOL * (1 + sscale):
+            chk.fail("reuse:fresh-mismatch", f"after {ops_done}: the reused object predicts differently from a fresh object holding identical parameters "
+                     f"(max diff {np.abs(Pf - P).max() if Pf.shape == P.shape else 'shape'})", replay, layer="L3")
+            bad = True
+        if np.any(P < 0) or np.any(np.abs(P.sum(1) - 1) > 1e-9):
+            chk.fail("reuse:simplex", f"after {ops_done}: predictions are not probability vectors", replay, layer="L3")
+            bad = True
+        if temp <= 1e-2:                # grid cells
+            for r in range(n):
+                if all(np.min(np.abs(c - X[r, j])) >= 45 * temp for j, c in cpl):
+                    idx = 0
+                    for j, c in cpl:
+                        idx = idx * (len(c) + 1) + count_below(X[r, j], c)
+                    want = impl.softmax_rows(S[idx:idx + 1])[0]
+                    if np.abs(P[r] - want).max() > 1e-9:
+                        chk.fail("reuse:cell", f"after {ops_done}: at temperature {temp} row {r} is not softmax(leaf_scores_[{idx}]) of its grid cell "
+                                 f"(diff {np.abs(P[r] - want).max()})", dict(replay, row=r), layer="L3")
+                        bad = True
+                        break
+                    chk.dist["reuse:cell-checked"] += 1
+        # find_active_points on the reused object
+        got = [int(v) for v in est.find_active_points(X.copy())]
+        if got != spec_active(cpl, X):
+            chk.fail("reuse:active-points", f"after {ops_done}: find_active_points={got}, spec={spec_active(cpl, X)}", replay, layer="L3")
+            bad = True
+        chk.dist[f"reuse:op={ops_done[-1].split(':')[0]}"] += 1
+        if bad:
+            break
+    chk.traces += 1
+    chk.count(("reuse", d, tuple(used), tuple(ops_done), i) if len(ops_done) >= 3 else None)
+    chk.sample({"stream": "reuse", "ops": ops_done, "d": d, "final_temperature": temp})
+
+
 STREAMS = {"binning": (stream_binning, 900, 9000), "infer": (stream_infer, 800, 8000), "init": (stream_init, 250, 2500),
            "cells": (stream_cells, 400, 4000), "active": (stream_active, 1500, 15000),
-           "active_malformed": (stream_active_malformed, 120, 1200), "nomask": (stream_nomask, 5, 20)}
+           "active_malformed": (stream_active_malformed, 120, 1200), "nomask": (stream_nomask, 5, 20),
+           "reuse": (stream_reuse, 250, 2500)}
 
 
 def main():
@@ -545,7 +671,10 @@ def main():
                     "_infer/predict_proba of Douglas objects after a real 1-epoch fit with handcrafted or fitted parameters (d<=4, masks None/all/some/one, n_cuts 1..4) "
                     "incl. bit-identical predictions under random/huge perturbation of masked columns; _init_params (mask handling, leaf count, wrong-length masks); "
                     "small-temperature grid cells (constant prediction = softmax(leaf_scores_[cell]), cell digit = #cuts below); find_active_points vs model and "
-                    "vs an independent spec on ranges between two cuts / touching a cut / constant / outside, and on data with too few columns. "
+                    "vs an independent spec on ranges between two cuts / touching a cut / constant / outside, and on data with too few columns; "
+                    "reuse: operation sequences on ONE object (fit, set_params(temperature) over orders of magnitude, hand-set cut points / number of cuts / leaf scores / mask, refit, "
+                    "direct _leaf_binning) with predict_proba compared after every step with the model on the current parameters, a fresh object with identical parameters and the grid-cell value; "
+                    "half of the fitted objects of the infer/cells streams are trained at another temperature and switched with set_params. "
                     "non-trivial = a masked feature exists or cut points are unsorted/duplicated/on the data grid (binning, infer), a mask is given (init), every cells case, "
                     ">=2 cuts with a between/touch feature (active); distinct = distinct case signature")
 
